@@ -172,7 +172,7 @@ def run(chk, replay=None):
         cfg = harness_config(exe)
         cases, tags = workload(chk.seed, cfg, exe, big)
         n0 = len(chk.violations)
-        impl, model = correspondence(chk, cases, [name + ":" + t for t in tags], exe, drv, okb=okb_for(cfg),
+        impl, model = correspondence(chk, cases, [name + ":" + t for t in tags], exe, drv, rel=False, okb=okb_for(cfg),
                                      describe=lambda c, o: {"case_head": c[:30], "output_head": o[:30]})
         for v in chk.violations[n0:]:
             try:
